@@ -219,6 +219,29 @@ def cross_stream(rnd, n):
     return out
 
 
+KIND_REPS = ["None", "nan", "pd.NA", "pd.NaT", "True", "1", "1.5", "(1+2j)", "'a'", "b'a'", "pd.Timestamp('2020-01-01 01:00')", "datetime.datetime(2020, 1, 1, 2)",
+             "datetime.date(2020, 1, 1)", "datetime.time(1, 2)", "pd.Timedelta(days=1)", "datetime.timedelta(1)", "pathlib.PurePosixPath('/a')", "pathlib.Path('/tmp')",
+             "pathlib.Path('.')", "urlparse('http://a.b/c')", "ipaddress.ip_address('::1')", "uuid.UUID('0b8a22ca-80ad-4df5-85ac-fa49c44b7ede')", "FQDA('a', 'b.c')",
+             "wkt.loads('POINT (1 2)')", "(1, 2)", "255", "-1", "0", "2.0"]
+
+
+def bx_stream(n, rnd=None, limit=None):
+    """bounded-exhaustive: every dtype x every list of at most n value kinds (representatives above);
+    combinations pandas refuses are skipped when materialised"""
+    import itertools
+    out = []
+    for dtype in ALL_DTYPES:
+        for k in range(0, n + 1):
+            for combo in itertools.product(KIND_REPS, repeat=k):
+                out.append({"recipe": series_recipe(list(combo), dtype), "family": "bx", "pool": "bx%d" % k, "dtype": dtype, "nulls": "?", "null": None,
+                            "len": k, "index": "None"})
+    if limit and len(out) > limit and rnd is not None:
+        keep = [o for o in out if o["len"] <= 1]
+        rest = [o for o in out if o["len"] > 1]
+        out = keep + rnd.sample(rest, limit - len(keep))
+    return out
+
+
 def special_stream():
     """hand-picked corners (empty, all-null per dtype, sparse, tz-aware, huge ints, ...)"""
     rs = [
@@ -300,7 +323,8 @@ def materialise(item):
 def all_streams(rnd, tier, n_fam=None, n_mixed=None):
     n_fam = n_fam or (1500 if tier == "quick" else 20000)
     n_mixed = n_mixed or (500 if tier == "quick" else 6000)
-    return (bank_stream() + special_stream() + file_stream() + family_stream(rnd, n_fam) + mixed_stream(rnd, n_mixed) + cross_stream(rnd, n_mixed * 2)
+    return (bank_stream() + special_stream() + file_stream() + bx_stream(2, rnd, limit=2500 if tier == "quick" else 25000)
+            + family_stream(rnd, n_fam) + mixed_stream(rnd, n_mixed) + cross_stream(rnd, n_mixed * 2)
             + long_stream(rnd, 40 if tier == "quick" else 600))
 
 
